@@ -74,7 +74,7 @@ def run(chk):
         raise vlib.MachineryError("C08 client-level driver failed:\n" + t2["out"][-3000:])
     res2 = json.load(open(rf2))
     for v in res2["violations"] or []:
-        if v["sig"].startswith(("cached-", "harness:")):
+        if v["sig"].startswith("cached-"):
             chk.violation(v["sig"], v["desc"], dict(kind="c08-client", detail=v))
     chk.cov["client_level_cache_inspections"] = res2["scenarios"]
     validated, nchunks = validate(chk, lines, lambda ev, inv: True)
